@@ -404,6 +404,10 @@ class Engine:
                     diverge({"C02"}, "paths-disagree:get_resources-shortcut", f"{got} vs {got2}")
                 for name, v in got.items():
                     out[(t, name)] = v
+                    direct = ctx.get_resource_nowait(t, name)  # present, so nothing is generated
+                    if direct is not v:
+                        diverge({"C02", "C03"}, f"paths-disagree:get_resources-vs-get_resource_nowait:{TNAME[t]}/{name}",
+                                f"get_resources says {v!r}, get_resource_nowait says {direct!r}")
             return out
 
         box = await actor.call(obs)
